@@ -317,6 +317,10 @@ trait SocksWriter: AsyncWriteExt + Sized + Unpin {
                         "Too long username or password".to_string(),
                     ));
                 }
+                // RFC 1929: UNAME and PASSWD are 1 to 255 octets long
+                if username.is_empty() || password.is_empty() {
+                    return Err(Error::Protocol("Empty username or password".to_string()));
+                }
 
                 let mut buf = MaxStackSmallVec::with_capacity(
                     std::mem::size_of_val(&USERNAME_PASSWORD_AUTHENTICATION_VER)
@@ -681,6 +685,18 @@ fn write_extended_authentication_value<A>(
 where
     A: smallvec::Array<Item = u8>,
 {
+    // The string values are (0..MAX] octets long
+    if let ExtendedAuthenticationValue::Domain(x)
+    | ExtendedAuthenticationValue::UserAgent(x)
+    | ExtendedAuthenticationValue::BasicProxyAuth(x) = value
+    {
+        if x.is_empty() {
+            return Err(Error::Protocol(
+                "Empty extended authentication value".to_string(),
+            ));
+        }
+    }
+
     buf.push(value.type_code());
 
     match value {
